@@ -230,7 +230,14 @@ def judge(prog, label, res, case, n):
                 res.violation(f"C14|{ir}|option-{k}", f"{ir} round trip changed {k}: {oa[k]!r} -> {ob[k]!r}", dict(case, ir=ir))
         try:
             env = {"free": {"a": 0.37, "b": -0.2}}
-            sa, sb = opsem.program_map(prog.circuit, n, env=env), opsem.program_map(loaded.circuit, n, env=env)
+            try:
+                sa, sb = opsem.program_map(prog.circuit, n, env=env), opsem.program_map(loaded.circuit, n, env=env)
+            except opsem.Unsupported:
+                # operations without a direct reference meaning (graph embeddings): the meaning of their real decomposition
+                from strawberryfields.compilers import compiler_db
+
+                dec = compiler_db["gaussian"]()
+                sa, sb = opsem.program_map(dec.decompose(list(prog.circuit)), n, env=env), opsem.program_map(dec.decompose(list(loaded.circuit)), n, env=env)
             ok, why = sa.equal(sb, 1e-9)
             if not ok:
                 res.violation(f"C14|{ir}|map|{label}", f"{ir} round trip of {[str(c) for c in prog.circuit]} changed the reference map: {why}", dict(case, ir=ir))
@@ -376,12 +383,13 @@ def work_options(_):
         if judge(P, f"measured-index-{'two' if m >= 10 else 'one'}-digit", res, case, 13):
             res.nt += 1
     # generate_code
-    for seq in (("S0", "BS01", "MF"), ("S1.H", "BS10"), ("Coh0", "MX0", "D1(m0)")):
+    extra = {"MPsel": lambda P, q: ops.MeasureHomodyne(PI / 2, select=0.3) | q[1], "MFsel": lambda P, q: ops.MeasureFock(dark_counts=[0.1, 0.2]) | (q[0], q[1])}
+    for seq in (("S0", "BS01", "MF"), ("S1.H", "BS10"), ("Coh0", "MX0", "D1(m0)"), ("S0", "MPsel"), ("S0", "BS01", "MFsel")):
         res.n += 1
         P = sf.Program(2)
         with P.context as q:
             for l in seq:
-                SEQ[l](P, q)
+                (SEQ.get(l) or extra[l])(P, q)
         case = {"kind": "generate_code", "seq": list(seq)}
         try:
             with warnings.catch_warnings():
